@@ -209,14 +209,20 @@ func c16Flush(c *Ctx) {
 					if FieldLoad("brokerProducer.output")(e) {
 						nEn++
 						g, path := reg.Guarded(site, ready)
+						g = g || Establishes(pred, out.Block(), ready)
 						c.Check(g, rule, fn, "output-enabled", lastInstr(pred), "output enabled only under timerFired ∨ readyToFlush()", "the output channel is enabled without timerFired ∨ readyToFlush(): partial batches are flushed ignoring the configured triggers", path)
 					} else if IsNil()(e) {
 						if lastInstr(pred) == nil || pred == fn.Blocks[0] {
 							continue
 						}
 						// disabled only when both are false
-						g1, p1 := reg.Guarded(site, Truth{FieldLoad("brokerProducer.timerFired"), false})
-						g2, p2 := reg.Guarded(site, Truth{p.ResultOf(0, "produceSet.readyToFlush"), false})
+						// the fact may hold at the predecessor's end or be established by the very edge into the merge
+						// (`output = nil; if ready { output = bp.output }` merges straight from the test)
+						notFired, notReady := Truth{FieldLoad("brokerProducer.timerFired"), false}, Truth{p.ResultOf(0, "produceSet.readyToFlush"), false}
+						g1, p1 := reg.Guarded(site, notFired)
+						g1 = g1 || Establishes(pred, out.Block(), notFired)
+						g2, p2 := reg.Guarded(site, notReady)
+						g2 = g2 || Establishes(pred, out.Block(), notReady)
 						if g1 && g2 {
 							nDis++
 							c.OK(rule, fn, "output-disabled", lastInstr(pred), "output disabled only under ¬timerFired ∧ ¬readyToFlush()")
